@@ -258,6 +258,46 @@ def run(ctx, repo, tier):
             r_ = contains_top(res)
             (ctx.inconclusive if r_ else ctx.violate)("LAYOUT", f"C09.{helper}.all", f"{helper}() is not {text} for n in [0, len(self))",
                                                       hw, witness=r_ or vstr(res)[:300])
+    # the requested rows are a numpy SELECTION (integer array in any order, negative indices, Boolean mask, slice): the helpers answer
+    # by indexing a table with it.  Arithmetic on the selection itself agrees for non-negative integers only - a Boolean mask is cast
+    # to 0/1 and an N-long vector of wrong values comes back, a negative index is not wrapped.
+    fgc = repo.cls(FG, "FullGrid")
+    for helper in ("get_quaternion_index", "get_position_index"):
+        hm = fgc.find_method(helper)
+        if hm is None:
+            continue
+        prm = hm.params()[1] if len(hm.params()) > 1 else None
+        if prm is None:
+            continue
+        derived = {prm}
+        grow = True
+        while grow:
+            grow = False
+            for a in ast.walk(hm.node):
+                if isinstance(a, ast.Assign) and len(a.targets) == 1 and isinstance(a.targets[0], ast.Name) and a.targets[0].id not in derived:
+                    v = a.value
+                    while isinstance(v, ast.Call) and src(v.func).split(".")[-1] in ("asarray", "array", "atleast_1d", "asanyarray") and v.args:
+                        v = v.args[0]
+                    if isinstance(v, ast.Name) and v.id in derived:
+                        derived.add(a.targets[0].id)
+                        grow = True
+
+        def is_sel(e):
+            while isinstance(e, ast.Call) and src(e.func).split(".")[-1] in ("asarray", "array", "atleast_1d", "asanyarray") and e.args:
+                e = e.args[0]
+            return isinstance(e, ast.Name) and e.id in derived
+        arith = [n for n in ast.walk(hm.node) if (isinstance(n, ast.BinOp) and isinstance(n.op, (ast.Mod, ast.FloorDiv, ast.Div, ast.Sub, ast.Add, ast.Mult)) and
+                                                   (is_sel(n.left) or is_sel(n.right))) or
+                 (isinstance(n, ast.Call) and src(n.func).split(".")[-1] in ("divmod", "mod", "floor_divide", "remainder", "fmod") and
+                  any(is_sel(x) for x in n.args))]
+        ctx.instance("LAYOUT")
+        if arith:
+            ctx.violate("LAYOUT", f"C09.{helper}.selection", f"{helper} computes on the requested selection itself instead of indexing a table "
+                        "with it: a Boolean mask over the full-grid rows is cast to 0/1 (an N-long vector of wrong values instead of the "
+                        "entries of the selected rows) and negative indices are not wrapped", hm.where, src(arith[0])[:120],
+                        witness=f"`{prm}` is used as an arithmetic operand")
+        else:
+            ctx.ok("LAYOUT", f"C09.{helper}.selection", f"{helper} uses the requested selection only as an index (any numpy selection works)", hm.where)
     # ------------------------------------------------------------------ radii are the converted (Angstrom) values
     pg = fg.attrs.get("position_grid")
     rad = interp.call_value(interp.getattr(pg, "get_radii"), [], {}, None, None) if isinstance(pg, ObjV) else None
